@@ -317,6 +317,7 @@ namespace occa {
       hash()
       ^ modeDevice->kernelHash(kernelProps)
       ^ kernelHeaderHash(kernelProps)
+      ^ kernelPropertyHash(kernelProps, "okl")
       ^ sourceHash
     );
 
